@@ -14,7 +14,6 @@
 //! non-GOAL states has no cycle, no state beyond the term cap, and GOAL is
 //! only left by a client append.
 
-use crate::explore::Witness;
 use crate::sched::default_event;
 use crate::world::*;
 use engine::{Args, Report, Tier};
@@ -30,13 +29,16 @@ struct Cfg {
     overlapping_appends: bool,
     /// partitions start and heal only when no message is in flight
     quiescent_partition_points: bool,
+    /// FIFO regime: reorderings (Defer) and client appends per execution
+    max_defers: u8,
+    max_appends_fifo: u8,
 }
 
 fn cfg(tier: Tier) -> Cfg {
     let env = |k: &str, d: u64| std::env::var(k).ok().and_then(|s| s.parse().ok()).unwrap_or(d);
     match tier {
-        Tier::Quick => Cfg { max_appends: env("VERIF_C30_APPENDS", 2) as u8, partition_appends: env("VERIF_C30_PAPPENDS", 1) as u8, term_slack: env("VERIF_C30_TERMS", 5), state_cap: env("VERIF_C30_CAP", 6_000_000) as usize, overlapping_appends: env("VERIF_C30_OVERLAP", 0) != 0, quiescent_partition_points: env("VERIF_C30_QUIESCENT", 1) != 0 },
-        Tier::Thorough => Cfg { max_appends: env("VERIF_C30_APPENDS", 3) as u8, partition_appends: env("VERIF_C30_PAPPENDS", 2) as u8, term_slack: env("VERIF_C30_TERMS", 6), state_cap: env("VERIF_C30_CAP", 60_000_000) as usize, overlapping_appends: env("VERIF_C30_OVERLAP", 0) != 0, quiescent_partition_points: env("VERIF_C30_QUIESCENT", 0) != 0 },
+        Tier::Quick => Cfg { max_appends: env("VERIF_C30_APPENDS", 1) as u8, partition_appends: env("VERIF_C30_PAPPENDS", 1) as u8, term_slack: env("VERIF_C30_TERMS", 5), state_cap: env("VERIF_C30_CAP", 6_000_000) as usize, overlapping_appends: env("VERIF_C30_OVERLAP", 0) != 0, quiescent_partition_points: env("VERIF_C30_QUIESCENT", 1) != 0, max_defers: env("VERIF_C30_DEFERS", 2) as u8, max_appends_fifo: env("VERIF_C30_FAPPENDS", 2) as u8 },
+        Tier::Thorough => Cfg { max_appends: env("VERIF_C30_APPENDS", 2) as u8, partition_appends: env("VERIF_C30_PAPPENDS", 2) as u8, term_slack: env("VERIF_C30_TERMS", 6), state_cap: env("VERIF_C30_CAP", 60_000_000) as usize, overlapping_appends: env("VERIF_C30_OVERLAP", 0) != 0, quiescent_partition_points: env("VERIF_C30_QUIESCENT", 0) != 0, max_defers: env("VERIF_C30_DEFERS", 3) as u8, max_appends_fifo: env("VERIF_C30_FAPPENDS", 3) as u8 },
     }
 }
 
@@ -46,6 +48,19 @@ struct Start {
     base: Vec<Event>,
     world: World,
     partitioned: bool,
+    /// true: every delivery order (unordered network); false: FIFO default schedule with bounded reorderings
+    all_orders: bool,
+}
+
+impl Start {
+    fn label(&self) -> &'static str {
+        match (self.partitioned, self.all_orders) {
+            (false, true) => "initial/all-orders",
+            (false, false) => "initial/fifo+reorderings",
+            (true, true) => "post-partition/all-orders",
+            (true, false) => "post-partition/fifo+reorderings",
+        }
+    }
 }
 
 fn max_term(w: &World) -> u64 {
@@ -128,7 +143,10 @@ fn walk_default(mut w: World, mut evs: Vec<Event>, seen: &mut HashMap<u128, ()>,
 }
 
 fn start_states(c: &Cfg) -> Vec<Start> {
-    let mut starts = vec![Start { base: vec![], world: World::new(false), partitioned: false }];
+    let mut starts = vec![
+        Start { base: vec![], world: World::new(false), partitioned: false, all_orders: true },
+        Start { base: vec![], world: World::new(false), partitioned: false, all_orders: false },
+    ];
     // layer A: states of the fault-free default run
     let mut a: Vec<(World, Vec<Event>)> = vec![];
     let mut seen_a = HashMap::new();
@@ -176,7 +194,7 @@ fn start_states(c: &Cfg) -> Vec<Start> {
             m.multiset = true;
             m.net.sort_by(|a, b| a.enc.cmp(&b.enc));
             if seen_s.insert(m.hash(false), ()).is_none() {
-                starts.push(Start { base: e2, world: w2, partitioned: true });
+                starts.push(Start { base: e2, world: w2, partitioned: true, all_orders: false });
             }
         }
     }
@@ -187,6 +205,7 @@ struct NodeRec {
     parent: u32,
     ev: Event,
     root: u32,
+    depth: u32,
     goal: bool,
     why: &'static str,
     capped: bool,
@@ -199,39 +218,54 @@ struct Graph {
     capped: bool,
 }
 
-fn gkey(w: &World, base_appends: u8) -> u128 {
+fn gkey(w: &World, base_appends: u8, defers: u8) -> u128 {
     let mut k = w.key(false);
     k.push(base_appends);
+    k.push(defers);
     hash128(&k)
+}
+
+/// events of the FIFO regime: the default schedule, plus (budget permitting) one reordering or a client append
+fn enabled_fifo(w: &World, base_appends: u8, defers: u8, c: &Cfg) -> Vec<(Event, u8)> {
+    let mut evs = vec![(default_event(w), defers)];
+    if w.net.len() >= 2 && defers < c.max_defers {
+        evs.push((Event::Defer(0), defers + 1));
+    }
+    let leaders = w.leaders();
+    if leaders.len() == 1 && w.appends - base_appends < c.max_appends_fifo {
+        let l = leaders[0];
+        if (0..N).all(|i| i == l || w.nodes[i].v_state() == (crate::raft::V_FOLLOWER, l as u64)) {
+            evs.push((Event::Append(l as u8), defers));
+        }
+    }
+    evs
 }
 
 fn build(starts: &[Start], c: &Cfg) -> Graph {
     let mut index: HashMap<u128, u32> = HashMap::new();
     let mut g = Graph { nodes: vec![], transitions: 0, capped: false };
-    let mut queue: std::collections::VecDeque<(u32, World, u8, u64)> = Default::default();
+    // (node id, world, appends before the start state, term cap, reorderings used)
+    let mut queue: std::collections::VecDeque<(u32, World, u8, u64, u8)> = Default::default();
     for (ri, s) in starts.iter().enumerate() {
         let mut w = s.world.clone();
-        w.multiset = true;
-        w.net.sort_by(|a, b| a.enc.cmp(&b.enc));
+        if s.all_orders {
+            w.multiset = true;
+            w.net.sort_by(|a, b| a.enc.cmp(&b.enc));
+        }
         w.ghost = Ghost::default();
         let ba = w.appends;
-        let h = gkey(&w, ba);
+        let h = gkey(&w, ba, 0);
         if index.contains_key(&h) {
             continue;
         }
         let id = g.nodes.len() as u32;
         index.insert(h, id);
         let gl = goal(&w, ba);
-        g.nodes.push(NodeRec { parent: u32::MAX, ev: Event::Tick, root: ri as u32, goal: gl.is_ok(), why: gl.err().unwrap_or(""), capped: false, succ: vec![] });
+        g.nodes.push(NodeRec { parent: u32::MAX, ev: Event::Tick, root: ri as u32, depth: 0, goal: gl.is_ok(), why: gl.err().unwrap_or(""), capped: false, succ: vec![] });
         let cap = max_term(&w) + c.term_slack;
-        queue.push_back((id, w, ba, cap));
+        queue.push_back((id, w, ba, cap, 0));
     }
-    let dbg = std::env::var("VERIF_RAFT_DEBUG").is_ok();
-    let mut hist: std::collections::BTreeMap<(u8, u64, usize), u64> = Default::default();
-    while let Some((id, w, ba, cap)) = queue.pop_front() {
-        if dbg {
-            *hist.entry((w.appends, w.now / 2000, w.net.len())).or_insert(0) += 1;
-        }
+    while let Some((id, w, ba, cap, defers)) = queue.pop_front() {
         if max_term(&w) > cap {
             g.nodes[id as usize].capped = true;
             continue;
@@ -240,36 +274,27 @@ fn build(starts: &[Start], c: &Cfg) -> Graph {
             g.capped = true;
             break;
         }
-        for ev in enabled(&w, ba, c) {
+        let evs: Vec<(Event, u8)> = if w.multiset { enabled(&w, ba, c).into_iter().map(|e| (e, 0)).collect() } else { enabled_fifo(&w, ba, defers, c) };
+        for (ev, d2) in evs {
             let mut w2 = w.clone();
             w2.apply(ev).unwrap_or_else(|e| panic!("HARNESS: C30 event {} refused: {e}", ev.to_text()));
             w2.ghost = Ghost::default();
             g.transitions += 1;
-            let h = gkey(&w2, ba);
+            let h = gkey(&w2, ba, d2);
             let tid = match index.get(&h) {
                 Some(t) => *t,
                 None => {
                     let t = g.nodes.len() as u32;
                     index.insert(h, t);
                     let gl = goal(&w2, ba);
-                    let root = g.nodes[id as usize].root;
-                    g.nodes.push(NodeRec { parent: id, ev, root, goal: gl.is_ok(), why: gl.err().unwrap_or(""), capped: false, succ: vec![] });
-                    queue.push_back((t, w2, ba, cap));
+                    let (root, depth) = (g.nodes[id as usize].root, g.nodes[id as usize].depth + 1);
+                    g.nodes.push(NodeRec { parent: id, ev, root, depth, goal: gl.is_ok(), why: gl.err().unwrap_or(""), capped: false, succ: vec![] });
+                    queue.push_back((t, w2, ba, cap, d2));
                     t
                 }
             };
             g.nodes[id as usize].succ.push((tid, ev));
         }
-    }
-    if dbg {
-        let mut by_time: std::collections::BTreeMap<(u8, u64), u64> = Default::default();
-        let mut by_net: std::collections::BTreeMap<usize, u64> = Default::default();
-        for ((a, t, n), c) in &hist {
-            *by_time.entry((*a, *t)).or_insert(0) += c;
-            *by_net.entry(*n).or_insert(0) += c;
-        }
-        eprintln!("by (appends, time/2s): {by_time:?}");
-        eprintln!("by net len: {by_net:?}");
     }
     g
 }
@@ -314,82 +339,159 @@ impl Cases {
     }
 }
 
-fn analyse(g: &Graph, starts: &[Start]) -> (Cases, u64, u64, u64) {
+/// strongly connected components (iterative Tarjan); returns component id per node and component sizes
+fn sccs(g: &Graph) -> (Vec<u32>, Vec<u32>) {
     let n = g.nodes.len();
+    const UN: u32 = u32::MAX;
+    let mut idx = vec![UN; n];
+    let mut low = vec![0u32; n];
+    let mut on = vec![false; n];
+    let mut comp = vec![UN; n];
+    let mut sizes: Vec<u32> = vec![];
+    let mut st: Vec<u32> = vec![];
+    let mut counter = 0u32;
+    for s in 0..n {
+        if idx[s] != UN {
+            continue;
+        }
+        let mut call: Vec<(u32, usize)> = vec![(s as u32, 0)];
+        idx[s] = counter;
+        low[s] = counter;
+        counter += 1;
+        st.push(s as u32);
+        on[s] = true;
+        while let Some(&mut (u, ref mut k)) = call.last_mut() {
+            let ui = u as usize;
+            if *k < g.nodes[ui].succ.len() {
+                let v = g.nodes[ui].succ[*k].0 as usize;
+                *k += 1;
+                if idx[v] == UN {
+                    idx[v] = counter;
+                    low[v] = counter;
+                    counter += 1;
+                    st.push(v as u32);
+                    on[v] = true;
+                    call.push((v as u32, 0));
+                } else if on[v] {
+                    low[ui] = low[ui].min(idx[v]);
+                }
+            } else {
+                if low[ui] == idx[ui] {
+                    let c = sizes.len() as u32;
+                    let mut size = 0;
+                    loop {
+                        let x = st.pop().unwrap() as usize;
+                        on[x] = false;
+                        comp[x] = c;
+                        size += 1;
+                        if x == ui {
+                            break;
+                        }
+                    }
+                    sizes.push(size);
+                }
+                call.pop();
+                if let Some(&(p, _)) = call.last() {
+                    let pi = p as usize;
+                    low[pi] = low[pi].min(low[ui]);
+                }
+            }
+        }
+    }
+    (comp, sizes)
+}
+
+/// shortest cycle through v inside its component
+fn cycle_through(g: &Graph, comp: &[u32], v: u32) -> Vec<Event> {
+    let c = comp[v as usize];
+    let mut prev: HashMap<u32, (u32, Event)> = HashMap::new();
+    let mut q = std::collections::VecDeque::new();
+    q.push_back(v);
+    while let Some(u) = q.pop_front() {
+        for (t, ev) in &g.nodes[u as usize].succ {
+            if comp[*t as usize] != c {
+                continue;
+            }
+            if *t == v {
+                let mut evs = vec![*ev];
+                let mut x = u;
+                while x != v {
+                    let (p, e) = prev[&x];
+                    evs.push(e);
+                    x = p;
+                }
+                evs.reverse();
+                return evs;
+            }
+            if !prev.contains_key(t) {
+                prev.insert(*t, (u, *ev));
+                q.push_back(*t);
+            }
+        }
+    }
+    vec![]
+}
+
+fn analyse(g: &Graph, starts: &[Start]) -> (Cases, u64, u64, u64) {
     let mut cases = Cases::default();
-    let from = |root: u32| if starts[root as usize].partitioned { "post-partition" } else { "initial" };
-    // (b) term cap, (c) goal left without an append
+    let from = |root: u32| starts[root as usize].label();
     let mut goal_entries = 0u64;
     for (id, nd) in g.nodes.iter().enumerate() {
         if nd.capped && !nd.goal {
             let (root, stem) = path_to(g, id as u32);
             cases.push(Case { signature: format!("elections-do-not-settle|{}|from={}", nd.why, from(root)), what: format!("a fault-free schedule from the {} state drives the terms beyond the cap without reaching the goal ({})", from(root), nd.why), root, stem, cycle: vec![], kind: "term-cap" });
         }
-        for (t, ev) in &nd.succ {
-            let tn = &g.nodes[*t as usize];
-            if !nd.goal && tn.goal {
+        for (t, _ev) in &nd.succ {
+            if !nd.goal && g.nodes[*t as usize].goal {
                 goal_entries += 1;
-            }
-            if nd.goal && !tn.goal && !matches!(ev, Event::Append(_)) {
-                let (root, mut stem) = path_to(g, id as u32);
-                stem.push(*ev);
-                cases.push(Case { signature: format!("goal-left-without-fault|{}|from={}", tn.why, from(root)), what: format!("from a state with one leader and everything committed, the fault-free step {} leads to a state with {}", ev.to_text(), tn.why), root, stem, cycle: vec![], kind: "goal-left" });
             }
         }
     }
-    // (a) cycles among non-goal states: iterative DFS with colours
-    let mut colour = vec![0u8; n];
-    let mut longest = vec![0u32; n]; // longest path (steps) to leave the non-goal subgraph
-    for s in 0..n {
-        if colour[s] != 0 || g.nodes[s].goal {
-            continue;
-        }
-        let mut stack: Vec<(u32, usize)> = vec![(s as u32, 0)];
-        colour[s] = 1;
-        while let Some(&mut (u, ref mut k)) = stack.last_mut() {
-            let nd = &g.nodes[u as usize];
-            if *k < nd.succ.len() {
-                let (v, _ev) = nd.succ[*k];
-                *k += 1;
-                if g.nodes[v as usize].goal {
-                    longest[u as usize] = longest[u as usize].max(1);
-                    continue;
-                }
-                match colour[v as usize] {
-                    0 => {
-                        colour[v as usize] = 1;
-                        stack.push((v, 0));
-                    }
-                    1 => {
-                        // back edge: cycle v -> ... -> u -> v
-                        let pos = stack.iter().position(|x| x.0 == v).unwrap();
-                        let mut cycle = vec![];
-                        let mut whys: Vec<&str> = vec![];
-                        for w in pos..stack.len() {
-                            let (a, ka) = stack[w];
-                            let ev = g.nodes[a as usize].succ[ka - 1].1;
-                            cycle.push(ev);
-                            whys.push(g.nodes[a as usize].why);
-                        }
-                        whys.sort();
-                        whys.dedup();
-                        let timed = cycle.iter().any(|e| matches!(e, Event::Tick));
-                        let (root, stem) = path_to(g, v);
-                        let sig = format!("never-reaches-goal|{}|{}|from={}", whys.join("+"), if timed { "time-advances" } else { "zero-time-message-loop" }, from(root));
-                        cases.push(Case { signature: sig, what: format!("a fault-free schedule from the {} state cycles through {} states none of which has one leader with everything committed ({})", from(root), cycle.len(), whys.join("+")), root, stem, cycle, kind: "cycle" });
-                    }
-                    _ => {
-                        longest[u as usize] = longest[u as usize].max(longest[v as usize] + 1);
-                    }
-                }
-            } else {
-                colour[u as usize] = 2;
-                let lu = longest[u as usize];
-                stack.pop();
-                if let Some(&(p, _)) = stack.last() {
-                    longest[p as usize] = longest[p as usize].max(lu + 1);
-                }
+    // eventually-always GOAL: no cycle may contain a non-goal state
+    let (comp, sizes) = sccs(g);
+    let mut bad_sccs = 0u64;
+    let mut worst: HashMap<u32, u32> = HashMap::new(); // component -> non-goal member of least depth
+    for (id, nd) in g.nodes.iter().enumerate() {
+        let c = comp[id];
+        let nontrivial = sizes[c as usize] > 1 || nd.succ.iter().any(|s| s.0 as usize == id);
+        if nontrivial && !nd.goal {
+            let e = worst.entry(c).or_insert(id as u32);
+            if nd.depth < g.nodes[*e as usize].depth {
+                *e = id as u32;
             }
+        }
+    }
+    let mut comps: Vec<(u32, u32)> = worst.into_iter().collect();
+    comps.sort();
+    for (c, v) in comps {
+        bad_sccs += 1;
+        let cycle = cycle_through(g, &comp, v);
+        let mut whys: Vec<&str> = g.nodes.iter().enumerate().filter(|(i, n)| comp[*i] == c && !n.goal).map(|(_, n)| n.why).collect();
+        whys.sort();
+        whys.dedup();
+        let timed = cycle.iter().any(|e| matches!(e, Event::Tick));
+        let (root, stem) = path_to(g, v);
+        let sig = format!("never-settles|{}|{}|from={}", whys.join("+"), if timed { "time-advances" } else { "zero-time-message-loop" }, from(root));
+        cases.push(Case { signature: sig, what: format!("a fault-free schedule from the {} state runs forever through states without one leader and everything committed ({}); the loop has {} steps", from(root), whys.join("+"), cycle.len()), root, stem, cycle, kind: "cycle" });
+    }
+    // longest way to the goal (steps) over the acyclic non-goal part
+    let n = g.nodes.len();
+    let mut longest = vec![0u32; n];
+    if bad_sccs == 0 {
+        // nodes in reverse topological order = increasing component id of Tarjan (components are emitted sinks first)
+        let mut order: Vec<u32> = (0..n as u32).collect();
+        order.sort_by_key(|&i| comp[i as usize]);
+        for &u in &order {
+            let nd = &g.nodes[u as usize];
+            if nd.goal {
+                continue;
+            }
+            let mut m = 0;
+            for (t, _) in &nd.succ {
+                let tn = &g.nodes[*t as usize];
+                m = m.max(if tn.goal { 1 } else { longest[*t as usize] + 1 });
+            }
+            longest[u as usize] = m;
         }
     }
     let max_steps = longest.iter().cloned().max().unwrap_or(0) as u64;
@@ -402,80 +504,67 @@ fn case_json(c: &Case, starts: &[Start]) -> Value {
         "regime": "C30",
         "kind": c.kind,
         "base": starts[c.root as usize].base.iter().map(|e| e.to_text()).collect::<Vec<_>>(),
+        "multiset": starts[c.root as usize].all_orders,
         "stem": c.stem.iter().map(|e| e.to_text()).collect::<Vec<_>>(),
         "cycle": c.cycle.iter().map(|e| e.to_text()).collect::<Vec<_>>(),
         "expect_signature": c.signature,
     })
 }
 
-/// re-execute a case on the real code; returns (still violates, log)
+/// re-execute a case on the real code; returns (still violates, log, final observation)
 fn replay_case(r: &Value) -> (bool, Vec<String>, Value) {
     let evs = |x: &Value| -> Vec<Event> { x.as_array().map(|a| a.iter().map(|e| Event::parse(e.as_str().unwrap_or("")).unwrap_or_else(|| engine::machinery_failure("replay file: bad event"))).collect()).unwrap_or_default() };
     let base = evs(&r["base"]);
     let stem = evs(&r["stem"]);
     let cycle = evs(&r["cycle"]);
     let kind = r["kind"].as_str().unwrap_or("");
-    let w0 = Witness { regime: "C30", base: base.clone(), multiset: true, events: vec![], devs: vec![] };
-    let _ = w0;
     let mut w = World::new(false);
     let mut log = vec![];
     for e in &base {
         w.apply(*e).unwrap_or_else(|x| engine::machinery_failure(&format!("replay: base event {} refused: {x}", e.to_text())));
     }
-    w.multiset = true;
-    w.net.sort_by(|a, b| a.enc.cmp(&b.enc));
+    if r["multiset"].as_bool().unwrap_or(true) {
+        w.multiset = true;
+        w.net.sort_by(|a, b| a.enc.cmp(&b.enc));
+    }
     let ba = w.appends;
     let start_term = max_term(&w);
-    let mut line = |w: &World, e: &Event, phase: &str, log: &mut Vec<String>| {
+    let line = |w: &World, e: &Event, phase: &str, log: &mut Vec<String>| {
         let states: Vec<String> = (0..N)
             .map(|i| {
                 let s = w.snap(i);
                 format!("{}:t{}:c{}", state_name(s.kind, s.payload), s.term, s.raft_commit)
             })
             .collect();
-        log.push(format!("{phase} t={} {} => {} goal={:?}", w.now, e.to_text(), states.join(" "), goal(w, ba)));
+        log.push(format!("{phase} t={} {} => {} {}", w.now, e.to_text(), states.join(" "), match goal(w, ba) { Ok(()) => "GOAL".to_string(), Err(y) => format!("not settled: {y}") }));
     };
-    let mut all_non_goal_after_first = true;
-    let n_stem = stem.len();
-    for (k, e) in stem.iter().enumerate() {
+    for e in &stem {
         w.apply(*e).unwrap_or_else(|x| engine::machinery_failure(&format!("replay: event {} refused: {x}", e.to_text())));
         line(&w, e, "stem ", &mut log);
-        let _ = k;
     }
     let still = match kind {
         "cycle" => {
+            // the loop closes (same canonical state, clock ages included) and contains a state that is not settled
             w.ghost = Ghost::default();
-            let k0 = gkey(&w, ba);
-            let mut ok = goal(&w, ba).is_err();
+            let k0 = w.key(false);
+            let mut closes = !cycle.is_empty();
+            let mut unsettled = goal(&w, ba).is_err();
             for round in 0..2 {
                 for e in &cycle {
                     w.apply(*e).unwrap_or_else(|x| engine::machinery_failure(&format!("replay: cycle event {} refused: {x}", e.to_text())));
-                    line(&w, e, if round == 0 { "cycle" } else { "again" }, &mut log);
-                    if goal(&w, ba).is_ok() {
-                        all_non_goal_after_first = false;
+                    line(&w, e, if round == 0 { "loop " } else { "again" }, &mut log);
+                    if goal(&w, ba).is_err() {
+                        unsettled = true;
                     }
                 }
                 w.ghost = Ghost::default();
-                if gkey(&w, ba) != k0 {
-                    ok = false;
+                if w.key(false) != k0 {
+                    closes = false;
                 }
             }
-            ok && all_non_goal_after_first
+            closes && unsettled
         }
         "term-cap" => goal(&w, ba).is_err() && max_term(&w) > start_term + r["term_slack"].as_u64().unwrap_or(5),
-        "goal-left" => {
-            // the state before the last stem event must be a goal state and the state after it not
-            let mut v = World::new(false);
-            for e in &base {
-                v.apply(*e).unwrap();
-            }
-            v.multiset = true;
-            v.net.sort_by(|a, b| a.enc.cmp(&b.enc));
-            for e in &stem[..n_stem.saturating_sub(1)] {
-                v.apply(*e).unwrap();
-            }
-            goal(&v, ba).is_ok() && goal(&w, ba).is_err()
-        }
         _ => engine::machinery_failure("replay file: unknown C30 case kind"),
     };
     (still, log, w.observe())
@@ -511,30 +600,36 @@ pub fn run(args: &Args) -> i32 {
     let g = engine::catch(|| build(&starts, &c)).unwrap_or_else(|p| engine::machinery_failure(&format!("panic while building the C30 graph: {} at {}", p.message, p.location)));
     let t_build = t0.elapsed().as_secs_f64();
     let (cases, goal_entries, max_steps, goals) = analyse(&g, &starts);
-    eprintln!("C30 starts={} states={} transitions={} goals={} signatures={} build={:.1}s total={:.1}s", starts.len(), g.nodes.len(), g.transitions, goals, cases.best.len(), t_build, t0.elapsed().as_secs_f64());
+    let all_orders_states = g.nodes.iter().filter(|n| starts[n.root as usize].all_orders).count();
+    eprintln!("C30 starts={} states={} (all-orders {}) transitions={} goals={} signatures={} build={:.1}s total={:.1}s", starts.len(), g.nodes.len(), all_orders_states, g.transitions, goals, cases.best.len(), t_build, t0.elapsed().as_secs_f64());
 
     report.set("states", json!(g.nodes.len()));
     report.set("transitions", json!(g.transitions));
     report.set("traces_validated_against_impl", json!(goal_entries));
     report.set("exhaustive", json!(!g.capped));
     report.set("start_states", json!(starts.len()));
-    report.set("goal_states", json!(goals));
-    report.set("executions_reaching_goal", json!(goal_entries));
-    report.set("longest_fault_free_path_to_goal_steps", json!(max_steps));
+    report.set("states_in_all_orders_regime", json!(all_orders_states));
+    report.set("states_in_fifo_regime", json!(g.nodes.len() - all_orders_states));
+    report.set("settled_states", json!(goals));
+    report.set("executions_reaching_settled_state", json!(goal_entries));
+    report.set("longest_fault_free_path_to_settled_state_steps", json!(max_steps));
     report.set(
         "bounds",
         json!({"nodes": N, "quantum_ms": QUANTUM_MS, "election_factor_ms": ELECTION_FACTOR_MS, "heartbeat_ms": HEARTBEAT_MS, "term_timeout_ms": TERM_TIMEOUT_MS, "age_cap_ms": AGE_CAP_MS,
-               "max_client_appends_after_start": c.max_appends, "client_appends_during_partition": c.partition_appends, "term_cap_above_start": c.term_slack, "state_cap": c.state_cap}),
+               "all_orders_regime": {"start": "initial state", "max_client_appends": c.max_appends, "overlapping_appends": c.overlapping_appends},
+               "fifo_regime": {"starts": "initial state and every post-partition state", "max_reorderings": c.max_defers, "max_client_appends": c.max_appends_fifo, "client_appends_during_partition": c.partition_appends, "partition_points_only_when_network_empty": c.quiescent_partition_points},
+               "term_cap_above_start": c.term_slack, "state_cap": c.state_cap}),
     );
     report.set("wall_start_states_s", json!(t_starts));
     report.set("wall_graph_s", json!(t_build));
-    report.sample(json!({"start": "initial", "events": "every order of: Deliver(any in-flight message) | Proc(i) when due | Tick when the network is empty and nothing is due | Append(leader) while the budget lasts"}));
-    for s in starts.iter().skip(1).step_by((starts.len() / 3).max(1)).take(3) {
-        report.sample(json!({"start": "post-partition", "prefix": s.base.iter().map(|e| e.to_text()).collect::<Vec<_>>()}));
+    report.sample(json!({"start": "initial", "regime": "all orders", "events": "every order of: Deliver(any in-flight message) | Proc(i) when due | Tick when the network is empty and nothing is due | Append(leader) once every node follows the leader"}));
+    for s in starts.iter().skip(2).step_by((starts.len() / 3).max(1)).take(3) {
+        report.sample(json!({"start": "post-partition", "regime": "FIFO default schedule + bounded reorderings + appends", "prefix": s.base.iter().map(|e| e.to_text()).collect::<Vec<_>>()}));
     }
     report.assume("healthy = every message is delivered before the clock advances; a due process() cannot be postponed past a clock tick; 3 nodes; quantum 500 ms");
-    report.assume("the ghost variables are not part of the C30 state; the state additionally records how many client appends preceded the start state");
-    report.assume("client appends during the fault-free phase happen only while exactly one node is in state Leader");
+    report.assume("settled = exactly one node in state Leader and every value appended since the start state committed, as the leader's entry, on every node; property = on every infinite fault-free path the cluster is eventually settled forever (no cycle of the graph contains an unsettled state) and no path exceeds the term cap");
+    report.assume("the ghost variables are not part of the C30 state; the state additionally records how many client appends preceded the start state and how many reorderings were used");
+    report.assume("client appends in the fault-free phase happen only while exactly one node is in state Leader and all others follow it; in the all-orders regime a further append waits until the previous one is committed everywhere");
 
     for (case, count) in cases.best.values() {
         let mut j = case_json(case, &starts);
